@@ -2,7 +2,7 @@
 were created; they must not overwrite newer state.  STALE-ts, STALE-removal, MUST-admit-live."""
 from .core import RuleResult, CheckFailure
 from .kernel import norm
-from .roles import ev_is
+from .roles import ev_is, ts_name_kind, sync_ts_fields
 from .roles import CHAN_RECV
 from .roles import get_roles, DASHMAP_REMOVE
 from .symex import fmt, subterms, PathLimit
@@ -40,7 +40,7 @@ def rule_stale_ts(ctx):
                 if e[0] != 'write':
                     continue
                 key, val = e[1], e[2]
-                if not any(isinstance(x, tuple) and x and x[0] == 'fld' and x[2] in ('last_accessed', 'last_modified') for x in subterms(key)):
+                if not any(isinstance(x, tuple) and x and x[0] == 'fld' and ts_name_kind(x[2]) for x in subterms(key)):
                     continue
                 from_op = any(isinstance(x, tuple) and x and x[0] == 'call' and str(x[1]).endswith('Receiver::try_recv') for x in subterms(val))
                 if not from_op:
@@ -59,7 +59,7 @@ def rule_stale_ts(ctx):
                         a_has_loc = any(x == key for x in subterms(c[2]))
                         if (a_has_loc and v is True) or ((not a_has_loc) and v is False):
                             guarded, how = True, '%s == %s' % (fmt(c)[:80], v)
-                store = [x[2] for x in subterms(key) if isinstance(x, tuple) and x and x[0] == 'fld' and x[2] in ('last_accessed', 'last_modified')][0]
+                store = [x[2] for x in subterms(key) if isinstance(x, tuple) and x and x[0] == 'fld' and ts_name_kind(x[2])][0]
                 r.instance(function=nid, store=store, value=fmt(val)[:60], guarded=guarded, how=how)
                 if not guarded:
                     r.violate(nid, 'unguarded-deferred-timestamp', store,
@@ -210,25 +210,55 @@ def rule_must_drain(ctx):
                 consumers[n] = 'read' if 'ReadOp' in ty else ('write' if 'WriteOp' in ty else '?')
     for m in sorted(R.maintenance):
         leads = {n for n in _maintenance_fns(ctx) if n not in consumers and (prog.reachable_from([n]) & set(consumers))}
-        sx = ctx.symex(inline_depth=3, loop_visits=2, inline_pred=lambda n, b, d: True if (n in leads and b.kind != 'closure') else False)
+        def pol(n, b, d):
+            if n in leads and b.kind != 'closure':
+                return True
+            # small side-effect-free predicates ("should this step run now?") are part of the decision
+            if b.kind != 'closure' and not b.loops() and len(b.blocks) <= 40 and b.locals[0]['ty']['s'] == 'bool' and n not in consumers and \
+                    not any(e[0] == 'write' for e in ctx.eff.transitive(n)):
+                return True
+            return False
+        sx = ctx.symex(inline_depth=3, loop_visits=2, inline_pred=pol)
         paths = [p for p in sx.run(m) if not p.diverged]
-        for p in paths:
-            for kind, chan in (('read', 'read_op_ch'), ('write', 'write_op_ch')):
-                nonempty = None
-                for c, v in p.conds:
-                    if isinstance(c, tuple) and c[0] == 'cmp' and any(isinstance(x, tuple) and x and x[0] == 'call' and str(x[1]).endswith('Receiver::len') and
-                                                                         chan in fmt(x) for x in subterms(c)) and any(x == ('c', 0) for x in subterms(c)):
-                        # lt(0, len) == True   /  le(len, 0) == False
-                        if (c[1] == 'lt' and c[2] == ('c', 0) and v is True) or (c[1] == 'le' and c[3] == ('c', 0) and v is False):
-                            nonempty = True
-                if not nonempty:
+
+        def len_lits(p, chan):
+            """(nonempty, empty) facts about the queue established on the path."""
+            ne = em = False
+            for c, v in p.conds:
+                if not (isinstance(c, tuple) and c[0] == 'cmp'):
                     continue
+                islen = lambda x: isinstance(x, tuple) and x and x[0] == 'call' and str(x[1]).endswith('Receiver::len') and chan in fmt(x)
+                if c[1] == 'lt' and c[2] == ('c', 0) and islen(c[3]):
+                    ne, em = (ne or v is True), (em or v is False)
+                if c[1] == 'le' and c[3] == ('c', 0) and islen(c[2]):
+                    ne, em = (ne or v is False), (em or v is True)
+                if c[1] in ('eq', 'ne') and ((c[2] == ('c', 0) and islen(c[3])) or (c[3] == ('c', 0) and islen(c[2]))):
+                    is_zero = (v is True) if c[1] == 'eq' else (v is False)
+                    ne, em = (ne or not is_zero), (em or is_zero)
+            return ne, em
+        for p in paths:
+            # `0 <= x` cannot be false for an unsigned x: such paths do not exist
+            if any(isinstance(c, tuple) and c[0] == 'cmp' and ((c[1] == 'le' and c[2] == ('c', 0) and v is False) or (c[1] == 'lt' and c[3] == ('c', 0) and v is True)) for c, v in p.conds):
+                continue
+            # likewise the first next() of `0..=n` (n unsigned) always yields an item
+            def _first_of_inclusive_from_zero(c):
+                if not (isinstance(c, tuple) and c[0] == 'discr' and isinstance(c[1], tuple) and c[1][0] == 'call' and str(c[1][1]).endswith('::next') and len(c[1]) == 3 and c[1][2]):
+                    return False
+                rg = c[1][2][0]
+                return isinstance(rg, tuple) and rg and ((rg[0] == 'call' and str(rg[1]).endswith('RangeInclusive::new') and rg[2] and rg[2][0] == ('c', 0)) or
+                                                         (rg[0] == 'aggr' and 'RangeInclusive' in str(rg[1]) and rg[3] and rg[3][0] == ('c', 0)))
+            if any(v == 0 and _first_of_inclusive_from_zero(c) for c, v in p.conds):
+                continue
+            for kind, chan in (('read', 'read_op_ch'), ('write', 'write_op_ch')):
+                nonempty, empty = len_lits(p, chan)
                 called = any(e[0] == 'call' and consumers.get(e[1]) == kind for e in p.events)
-                r.instance(function=m, queue=kind, nonempty=True, consumer_called=called)
-                if not called:
-                    r.violate(m, 'queue-not-drained', kind, 'a path of the maintenance run sees a non-empty %s queue but does not apply it (conditions: %s)' % (
-                        kind, [fmt(c)[:50] + '==' + str(v) for c, v in p.conds][:6]), where=ctx.where(m),
-                        expected='if %s.len() > 0 { apply }  -- unconditionally' % chan)
+                if called or (empty and not nonempty):
+                    r.instance(function=m, queue=kind, consumer_called=called, queue_known_empty=empty)
+                    continue
+                r.instance(function=m, queue=kind, consumer_called=False, queue_known_empty=empty, nonempty=nonempty)
+                r.violate(m, 'queue-not-drained', kind, 'a path of the maintenance run does not apply the %s queue although it has not established that the queue is empty (conditions: %s)' % (
+                    kind, [fmt(c)[:50] + '==' + str(v) for c, v in p.conds][:8]), where=ctx.where(m),
+                    expected='if %s.len() > 0 { apply }  -- unconditionally' % chan)
     r.require_floor(2, 'paths with a non-empty queue')
     return r
 
@@ -241,7 +271,7 @@ def rule_auth_ts_writers(ctx):
     EI = 'common::concurrent::entry_info::EntryInfo'
     n = 0
     if ctx.has_sync:
-        writers = {x for x in prog.bodies if any(('write', EI, f) in eff.direct.get(x, ()) for f in ('last_accessed', 'last_modified'))}
+        writers = {x for x in prog.bodies if any(('write', a_, f_) in eff.direct.get(x, ()) for a_, f_ in sync_ts_fields(ctx))}
         maint = _maintenance_fns(ctx)
         read_cons = {x for x in maint if prog.bodies[x].kind != 'closure' and any('ReadOp' in t.get('self_ty', {}).get('s', '') for _, t in prog.bodies[x].calls()
                                                                                    if prog.call_targets(prog.bodies[x], t)[1] in CHAN_RECV)}
